@@ -191,6 +191,10 @@ def get_node(topo, name):
 
 def get_iface(topo, ref):
     """ref = [node name, interface name] or [node name, interface name, child name] or ['svc', service, iface]"""
+    if ref[0] == 'none':
+        return None         # what `node.interfaces.get('typo')` hands a careless caller
+    if ref[0] == 'name-instead-of-handle':
+        return ref[1]       # the interface's name where its handle belongs
     if ref[0] == 'stale':
         # a handle whose element was removed after the handle was obtained (see op make_stale_ifaces)
         st = getattr(topo, '_verif_stale', None)
